@@ -92,7 +92,8 @@ def make_grammars(seed, tier):
 def seam_vector(rng, canonical=False):
     """One vector of ambient values.  Canonical = zero random bytes, epoch 0, empty environment, no heap pad."""
     if canonical:
-        return {"rand": 0, "time": 0, "timestep": 1, "pid": 4242, "host": "canonical", "heappad": 0, "heapfrag": 0, "stack_kb": 8192, "env": {}}
+        return {"rand": 0, "time": 0, "timestep": 1, "pid": 4242, "host": "canonical", "heappad": 0, "heapfrag": 0, "stack_kb": 8192, "env": {},
+                "paths": "plain", "argv0": "", "tty": "", "umask": 0o22, "cpus": 0}
     env = {}
     for _ in range(rng.range(0, 12)):
         name = rng.choice(ENV_NAMES)
@@ -108,26 +109,48 @@ def seam_vector(rng, canonical=False):
         "heapfrag": rng.choice([0, rng.u64() | 1, rng.u64() | 1]),
         "stack_kb": rng.choice([8192, 8192, 16384, 262144, 524288, 1048576]),
         "env": env,
+        # how the same grammar / destination are NAMED on the command line, what the program is called, whether its
+        # standard streams claim to be terminals, umask, visible CPU count: none of them is part of (grammar, shell)
+        "paths": rng.choice(["plain", "plain", "dotslash", "subdir", "absolute", "stdin", "longnames"]),
+        "argv0": rng.choice(["", "", "cg", "complgen-0.11.0", "a b"]),
+        "tty": rng.choice(["", "", "2", "12", "012"]),
+        "umask": rng.choice([0o22, 0o22, 0o77, 0o0, 0o27]),
+        "cpus": rng.choice([0, 0, 1, 2, 5]),
     }
 
 
 def case_for(text, shell, vec, outputs=("script", "dfa", "regex")):
-    argv = ["--" + shell, OUT]
-    roles = {"input": INPUT, "dest": OUT}
+    style = vec.get("paths", "plain")
+    names = {"plain": (INPUT, OUT, DFA, REGEX), "dotslash": ("./" + INPUT, "./" + OUT, "./" + DFA, "./" + REGEX),
+             "subdir": ("sub/dir/g.usage", "o/" + OUT, "o/" + DFA, "o/" + REGEX), "stdin": ("-", OUT, DFA, REGEX),
+             "longnames": ("my grammar (final).v2.usage", "completion-script-for-bash.sh", "graph.dfa.dot", "graph.regex.dot"),
+             "absolute": (INPUT, OUT, DFA, REGEX)}[style]
+    inp, out, dfa, regex = names
+    argv = ["--" + shell, out]
+    roles = {"input": inp, "dest": out}
     if "regex" in outputs:
-        argv += ["--regex", REGEX]
-        roles["dotregex"] = REGEX
+        argv += ["--regex", regex]
+        roles["dotregex"] = regex
     if "dfa" in outputs:
-        argv += ["--dfa", DFA]
-        roles["dotdfa"] = DFA
-    argv.append(INPUT)
+        argv += ["--dfa", dfa]
+        roles["dotdfa"] = dfa
+    argv.append(inp)
     plan = ["rand %d" % vec["rand"], "time %d" % vec["time"], "timestep %d" % vec.get("timestep", 1), "pid %d" % vec["pid"], "host %s" % vec["host"], "heappad %d" % vec["heappad"], "heapfrag %d" % vec.get("heapfrag", 0)]
-    return {"binary": "complgen", "argv": argv, "files": {INPUT: text}, "stdin": None, "stdout": "pipe", "roles": roles, "plan": plan,
-            "env": dict(vec["env"]), "stack_kb": vec["stack_kb"], "watch": [OUT, DFA, REGEX]}
+    for ch in vec.get("tty", ""):
+        plan.append("tty %s 1" % ch)
+    case = {"binary": "complgen", "argv": argv, "files": ({} if inp == "-" else {inp.lstrip("./") if inp.startswith("./") else inp: text}),
+            "stdin": text if inp == "-" else None, "stdout": "pipe", "roles": roles, "plan": plan,
+            "env": dict(vec["env"]), "stack_kb": vec["stack_kb"], "watch": [out, dfa, regex], "outputs_named": [out, dfa, regex],
+            "argv0": vec.get("argv0") or None, "umask": vec.get("umask"), "cpus": vec.get("cpus") or None,
+            "mkdirs": ["o"] if style == "subdir" else []}
+    if style == "absolute":
+        case["absolute"] = True
+    return case
 
 
-def outputs_of(res):
-    return {"exit": res["exit"], "script": res["files_after"].get(OUT), "dfa": res["files_after"].get(DFA), "regex": res["files_after"].get(REGEX)}
+def outputs_of(res, case=None):
+    out, dfa, regex = (case or {}).get("outputs_named") or (OUT, DFA, REGEX)
+    return {"exit": res["exit"], "script": res["files_after"].get(out), "dfa": res["files_after"].get(dfa), "regex": res["files_after"].get(regex)}
 
 
 def digest(s):
@@ -150,6 +173,12 @@ def ambient_calls(events):
     return c
 
 
+def run_vec(text, shell, vec, timeout=60):
+    case = case_for(text, shell, vec)
+    res = proc.run_case(case, timeout=timeout)
+    return res, outputs_of(res, case)
+
+
 def diff_outputs(ref, got):
     return [k for k in ("exit", "script", "dfa", "regex") if ref[k] != got[k]]
 
@@ -159,12 +188,12 @@ def diff_outputs(ref, got):
 def run_directed(args):
     g, shell, seed, nseeds = args
     rng = Rng(seed, "c10/directed/%d/%s" % (g["id"], shell))
-    ref_res = proc.run_case(case_for(g["text"], shell, seam_vector(None, canonical=True)), timeout=60)
-    ref = outputs_of(ref_res)
+    ref_res, ref = run_vec(g["text"], shell, seam_vector(None, canonical=True))
     out = {"gid": g["id"], "name": g["name"], "shell": shell, "runs": 1, "ref_exit": ref["exit"], "violations": [],
            "ambient": ambient_calls(ref_res["events"]), "vectors": 0, "script_len": len(ref["script"] or ""),
            "states": (ref["dfa"] or "").count("->"), "sample": None}
     if ref["exit"] != 0 or ref_res["timeout"]:
+        out["timeouts"] = int(bool(ref_res["timeout"]))
         return out
     looked_up = sorted(a[len("getenv:"):] for a in out["ambient"] if a.startswith("getenv:"))
     for k in range(nseeds):
@@ -174,14 +203,17 @@ def run_directed(args):
         for name in looked_up:
             if vr.chance(2, 3):
                 vec["env"][name] = vr.choice(ENV_VALUES)
-        res = proc.run_case(case_for(g["text"], shell, vec), timeout=60)
+        res, got = run_vec(g["text"], shell, vec)
         out["runs"] += 1
+        if res["timeout"]:
+            # cut off by the wall clock (machine load): no verdict about determinism can be drawn from a killed run
+            out["timeouts"] = out.get("timeouts", 0) + 1
+            continue
         out["vectors"] += 1
         for a, n in ambient_calls(res["events"]).items():
             out["ambient"][a] = out["ambient"].get(a, 0) + n
             if a.startswith("getenv:") and a[len("getenv:"):] not in looked_up:
                 looked_up = sorted(looked_up + [a[len("getenv:"):]])
-        got = outputs_of(res)
         d = diff_outputs(ref, got)
         if out["sample"] is None:
             out["sample"] = {"grammar": g["name"], "shell": shell, "vector": {k2: (v if k2 != "env" else {n: len(x) for n, x in v.items()}) for k2, v in vec.items()},
@@ -229,6 +261,9 @@ def run_history(args):
     vec = seam_vector(rng.sub("vec")) if rng.chance(1, 2) else canonical
     got, res = run_harness(ops, files, vec)
     out = {"hid": hid, "runs": 1, "compiles": nops, "violations": [], "ops": [(o[0], o[1]) for o in ops], "pool": [g["name"] for g in pool]}
+    if res["timeout"]:
+        out["timeouts"] = 1
+        return out
     if res["exit"] != 0:
         out["violations"].append({"class": "harness-crashed", "key": "history:crash", "mode": "history", "exit": res["exit"], "stderr": res["stderr"][-2000:],
                                   "files": files, "ops": ops, "vector": vec})
@@ -240,6 +275,9 @@ def run_history(args):
             continue
         r, rres = run_harness([(gf, sh, "ref")], {gf: files[gf]}, canonical)
         out["runs"] += 1
+        if rres["timeout"]:
+            out["timeouts"] = out.get("timeouts", 0) + 1
+            return out
         refs[(gf, sh)] = r["ref"]
     for idx, (gf, sh, p) in enumerate(ops):
         a, b = refs[(gf, sh)], got[p]
@@ -255,7 +293,7 @@ def run_history(args):
 
 def harness_matches_binary(g, shell):
     canonical = seam_vector(None, canonical=True)
-    ref = outputs_of(proc.run_case(case_for(g["text"], shell, canonical), timeout=60))
+    ref = run_vec(g["text"], shell, canonical)[1]
     got, _ = run_harness([("g.usage", shell, "x")], {"g.usage": g["text"]}, canonical)
     x = got["x"]
     if ref["exit"] != 0:
@@ -270,14 +308,18 @@ def harness_matches_binary(g, shell):
 
 def reproduce(v):
     if v["mode"] == "directed":
-        ref = outputs_of(proc.run_case(case_for(v["grammar"], v["shell"], v.get("ref_vector") or seam_vector(None, canonical=True)), timeout=60))
-        got = outputs_of(proc.run_case(case_for(v["grammar"], v["shell"], v["vector"]), timeout=60))
+        r1, ref = run_vec(v["grammar"], v["shell"], v.get("ref_vector") or seam_vector(None, canonical=True), timeout=180)
+        r2, got = run_vec(v["grammar"], v["shell"], v["vector"], timeout=180)
+        if r1["timeout"] or r2["timeout"]:
+            return None, {"note": "timed out"}
         d = diff_outputs(ref, got)
         return (v["class"] if d else None), {"differs": d}
     if v["mode"] == "history":
         canonical = seam_vector(None, canonical=True)
         ops = [tuple(o) for o in v["ops"]]
-        got, res = run_harness(ops, v["files"], v["vector"])
+        got, res = run_harness(ops, v["files"], v["vector"], timeout=300)
+        if res["timeout"]:
+            return None, {"note": "timed out"}
         if res["exit"] != 0:
             return "harness-crashed", {"exit": res["exit"], "stderr": res["stderr"][-1000:]}
         for idx, (gf, sh, p) in enumerate(ops):
@@ -302,7 +344,7 @@ def minimise(v):
     if v["mode"] == "directed":
         canonical = seam_vector(None, canonical=True)
         # seam values back to canonical, one at a time
-        for k in ("env", "heappad", "heapfrag", "stack_kb", "rand", "time", "timestep", "pid", "host"):
+        for k in ("env", "heappad", "heapfrag", "stack_kb", "rand", "time", "timestep", "pid", "host", "paths", "argv0", "tty", "umask", "cpus"):
             cand = json.loads(json.dumps(cur))
             cand["vector"][k] = canonical[k]
             if "ref_vector" in cand:
@@ -371,9 +413,11 @@ def determinism_probe(grammars, seed):
         for k in range(2):
             vec = seam_vector(rng.sub("v%d/%d" % (gi, k)))
             sh = rng.choice(gram.SHELLS)
-            a = proc.run_case(case_for(g["text"], sh, vec))
-            b = proc.run_case(case_for(g["text"], sh, vec))
-            d = diff_outputs(outputs_of(a), outputs_of(b))
+            a, oa = run_vec(g["text"], sh, vec)
+            b, ob = run_vec(g["text"], sh, vec)
+            d = [] if (a["timeout"] or b["timeout"]) else diff_outputs(oa, ob)
+            if a["timeout"] or b["timeout"]:
+                continue
             if d:
                 violations.append({"class": "output-differs-between-identical-runs", "key": "identical:" + "+".join(d), "mode": "directed",
                                    "grammar": g["text"], "grammar_name": g["name"], "shell": sh, "vector": vec, "ref_vector": vec, "differs": d})
@@ -406,6 +450,7 @@ def main(seed, tier):
     accepted = {}
     samples = []
     distinct_vectors = 0
+    timeouts = 0
     sizes = []
     for out in common.pmap(run_directed, jobs):
         runs += out["runs"]
@@ -416,6 +461,7 @@ def main(seed, tier):
             accepted[out["gid"]] = out["name"]
             distinct_vectors += out["vectors"]
             sizes.append(out["states"])
+        timeouts += out.get("timeouts", 0)
         if out["sample"] and len(samples) < 4 and out["gid"] % 5 == 0:
             samples.append(out["sample"])
     # harness validation against the real binary (same library, same call order)
@@ -434,9 +480,17 @@ def main(seed, tier):
     nhist = 60 if quick else 1500
     hjobs = []
     hr = Rng(seed, "c10/histories")
-    small_pool = [g for g in ok_pool if not g["name"].endswith("mygit.usage")]
+    small_pool = [g for g in ok_pool if not g["name"].endswith("mygit.usage") and not g["name"].startswith("many-subwords")]
+    # rejected grammars too: a compile AFTER A FAILED compile must equal a fresh one (error paths that leave state behind)
+    bad_pool = []
+    for i in range(8):
+        br = hr.sub("bad/%d" % i)
+        kind, text = gram.plant_mistake(br, gram.gen_grammar(br, br.range(2, 8)))
+        bad_pool.append({"name": "rejected:" + kind, "text": text, "id": -1 - i})
     for h in range(nhist):
         pool = hr.sample(small_pool, min(len(small_pool), hr.range(1, 6)))
+        if hr.chance(1, 3):
+            pool = pool[:4] + hr.sample(bad_pool, hr.range(1, 2))
         if hr.chance(1, 25):
             pool = pool[:2] + [g for g in ok_pool if g["name"].endswith("mygit.usage")]
         hjobs.append((h, pool, seed))
@@ -475,6 +529,7 @@ def main(seed, tier):
         "dfa_edges_min_median_max": [min(sizes or [0]), sorted(sizes or [0])[len(sizes or [0]) // 2], max(sizes or [0])],
         "fresh_process_runs": runs,
         "seam_vectors_compared": distinct_vectors,
+        "runs_cut_off_by_wall_clock_not_judged": timeouts,
         "history_processes": hruns,
         "history_compiles_in_process": compiles,
         "distinct_histories": len(distinct_hist),
